@@ -515,7 +515,7 @@ code and return nothing that leads to entry code), `VmOk` and `PInv` of the init
 
 /-- the always-failing parameter set satisfies the new law vacuously -/
 theorem failingExt_proc : ExtProc failingExt :=
-  ⟨fun _ _ _ _ _ _ _ h => (by cases h), fun _ _ _ _ _ _ h => (by cases h), fun _ _ _ _ _ _ _ h => (by cases h)⟩
+  ⟨fun _ _ _ _ _ _ _ _ h => (by cases h), fun _ _ _ _ _ _ _ h => (by cases h), fun _ _ _ _ _ _ _ _ h => (by cases h)⟩
 
 /-- **T13.3, closed**: no hypothesis along the run besides the physical size bound -/
 theorem sliced_value_eq_uninterrupted_closed (ext : ExtOps) (force : Bool) (o : ExtLaws ext) (eg : ExtGood ext)
